@@ -192,6 +192,19 @@ def generate(rng, n, tier="quick"):
         case = session({"escape": escn}, [("main", L + "{{#with v}}{{../x}}{{/with}}" + R)], {"api": "render", "name": "main"}, {"v": v, "x": val})
         case["id"] = "%s-thmup%04d" % (ID, k)
         out.append((case, {"mode": "thmup", "oracle": ["must", L + escape_of(escn)(txt) + R]}))
+    # the family of the Lean theorem C01.path_in_with_reads_the_with_scope (Props/C01d): L ++ {{#with v}}{{x}}{{/with}} ++ R for every truthy
+    # data.v holding a field x (the data holds a DIFFERENT x): escape(text of data.v.x) – the field of the scope the helper pushed (exact)
+    tr = rng.fork("thmin")
+    for k in range(60 if tier == "quick" else 1500):
+        r = tr.fork(k)
+        L, R = thm_left(r), thm_right(r)
+        val, txt = r.pick([("<b>&\"'`=", "<b>&\"'`="), ("inner", "inner"), ("", ""), (7, "7"), (-2, "-2"), (True, "true"), (False, "false"), (None, ""), ("a\nb", "a\nb"),
+                           ([1, "a"], "[1, a]"), ({"k": 1}, "[object]")])
+        v = r.pick([{"x": val}, {"x": val, "k": 1}, {"a": 0, "x": val, "y": {"x": "DEEPER"}}])
+        escn = r.pick(["none", "mark", "html"])
+        case = session({"escape": escn}, [("main", L + "{{#with v}}{{x}}{{/with}}" + R)], {"api": "render", "name": "main"}, {"v": v, "x": "OUTER"})
+        case["id"] = "%s-thmin%04d" % (ID, k)
+        out.append((case, {"mode": "thmin", "oracle": ["must", L + escape_of(escn)(txt) + R]}))
     return out
 
 
